@@ -27,6 +27,8 @@ var verifMutations = [...]string{
 	`set -e; set -o pipefail; set -u`, `shopt -s nullglob; shopt -u expand_aliases`,
 	`cd /tmp`, `cd /tmp; pushd / >/dev/null`, `shift`, `shift 2`, `set -- $X x`, `set --`,
 	`read s <<< "$X"`, `read -a a <<< "$X $X"`, `mapfile a <<< "$X"`, `printf -v s %s "$X"`, `getopts ab s -a`,
+	`a+=([$I]=$X)`, `sp+=([$I]=$X [1]=$X)`, `a+=([1]=$X [0]=$X)`, `m+=([k]=$X)`, `a=([$I]=$X)`, `sp[5]+=$X`, `a[-1]=$X`, `unset "a[-1]"`,
+	`declare -a a+=($X)`, `local loc=$X loc2+=($X) 2>/dev/null; loc2[0]=$X`, `readonly a; export a`, `typeset -i a[1]=5`,
 	`trap 'echo t' EXIT`, `eval "s=\$X; a[\$I]=\$X"`, `for s in $X; do :; done`, `OPTIND=3; ex=$X`,
 }
 
